@@ -16,7 +16,7 @@ import time
 from .common import (EXIT_INCONCLUSIVE, EXIT_OK, EXIT_VIOLATION, LOGS, REPLAYS, STABLE, TARGET,
                      VERIF, env_offline, match_known, run, say)
 
-KANI_MEM_GB = float(os.environ.get("VERIF_KANI_MEM_GB", "40"))
+KANI_MEM_GB = float(os.environ.get("VERIF_KANI_MEM_GB", "16"))
 
 
 def merge(a, b):
@@ -143,9 +143,35 @@ def kani_cmd(h, tdir, playback):
     return cmd
 
 
+NSLOTS = int(os.environ.get("VERIF_SLOTS", "12"))
+
+
+def acquire_slot():
+    """Target directories are shared by all ./check processes: take the first one nobody holds."""
+    import fcntl
+    os.makedirs(os.path.join(TARGET, "kani"), exist_ok=True)
+    while True:
+        for i in range(NSLOTS):
+            f = open(os.path.join(TARGET, "kani", f"slot{i}.lock"), "w")
+            try:
+                fcntl.flock(f, fcntl.LOCK_EX | fcntl.LOCK_NB)
+                return i, f
+            except OSError:
+                f.close()
+        time.sleep(2)
+
+
 def run_harness(slot, crate, h, prop):
     d = crate_dir(crate)
     sync_lock(d)
+    slot, slot_lock = acquire_slot()
+    try:
+        return _run_harness(slot, crate, h, prop, d)
+    finally:
+        slot_lock.close()
+
+
+def _run_harness(slot, crate, h, prop, d):
     tdir = os.path.join(TARGET, "kani", f"{crate}-slot{slot}")
     log = os.path.join(LOGS, prop, h["name"] + ".log")
     rc, out, wall, timed_out = run(kani_cmd(h, tdir, False), cwd=d, env=env_offline(), timeout=h.get("timeout", 900),
@@ -299,8 +325,10 @@ def run_property(prop, cfg, tier, jobs, known):
     # reachable in every group of cases)
     sat_all, named_all = set(), set()
     for res in results:
+        # witnesses reached before a (known or new) failing assertion count as reached; the names a
+        # failing harness could not reach behind its failing assertion are not held against the run
+        sat_all |= set(res.get("sat_covers", []))
         if res["verdict"] == "holds":
-            sat_all |= set(res.get("sat_covers", []))
             named_all |= set(res.get("sat_covers", [])) | set(res.get("unsat_covers", []))
     if selftest_fails and all(r["verdict"] == "holds" for r in results):
         say("INCONCLUSIVE: native self-tests of the harness crate fail (" + ", ".join(selftest_fails)
